@@ -17,15 +17,16 @@
 package xap
 
 import (
+	"archive/tar"
 	"io"
 	"os"
 
 	"github.com/sassoftware/relic/v8/lib/certloader"
 	"github.com/sassoftware/relic/v8/lib/magic"
 	"github.com/sassoftware/relic/v8/lib/signxap"
+	"github.com/sassoftware/relic/v8/lib/zipslicer"
 	"github.com/sassoftware/relic/v8/signers"
 	"github.com/sassoftware/relic/v8/signers/pecoff"
-	"github.com/sassoftware/relic/v8/signers/zipbased"
 )
 
 // Sign Silverlight / legacy Windows Phone apps
@@ -34,7 +35,7 @@ var XapSigner = &signers.Signer{
 	Name:      "xap",
 	Magic:     magic.FileTypeXAP,
 	CertTypes: signers.CertTypeX509,
-	Transform: zipbased.Transform,
+	Transform: transform,
 	Sign:      sign,
 	Verify:    verify,
 }
@@ -42,6 +43,66 @@ var XapSigner = &signers.Signer{
 func init() {
 	pecoff.AddOpusFlags(XapSigner)
 	signers.Register(XapSigner)
+}
+
+type xapTransformer struct {
+	f *os.File
+}
+
+func transform(f *os.File, opts signers.SignOpts) (signers.Transformer, error) {
+	return &xapTransformer{f}, nil
+}
+
+// Wrap the file in the same two-member tarball as zipbased.Transform. A XAP
+// that is already signed carries its signature after the end of the zip, so
+// the zip directory is located in the part of the file in front of it; both
+// tar members still extend to the end of the file so that the old signature is
+// seen, and replaced, by the signer.
+func (t *xapTransformer) GetReader() (io.Reader, error) {
+	r, w := io.Pipe()
+	go func() {
+		_ = w.CloseWithError(t.writeTar(w))
+	}()
+	return r, nil
+}
+
+func (t *xapTransformer) writeTar(w io.Writer) error {
+	size, err := t.f.Seek(0, io.SeekEnd)
+	if err != nil {
+		return err
+	}
+	var zip io.ReaderAt = t.f
+	zipSize := size
+	if frame := signxap.SignatureFrameSize(t.f, size); frame > 0 {
+		zipSize = size - frame
+		zip = io.NewSectionReader(t.f, 0, zipSize)
+	}
+	dirLoc, err := zipslicer.FindDirectory(zip, zipSize)
+	if err == io.EOF {
+		// a bare EOF would close the pipe like a complete stream
+		err = io.ErrUnexpectedEOF
+	}
+	if err != nil {
+		return err
+	}
+	tw := tar.NewWriter(w)
+	for _, m := range []struct {
+		name  string
+		start int64
+	}{{zipslicer.TarMemberCD, dirLoc}, {zipslicer.TarMemberZip, 0}} {
+		hdr := &tar.Header{Name: m.name, Mode: 0644, Size: size - m.start}
+		if err := tw.WriteHeader(hdr); err != nil {
+			return err
+		}
+		if _, err := io.Copy(tw, io.NewSectionReader(t.f, m.start, size-m.start)); err != nil {
+			return err
+		}
+	}
+	return tw.Close()
+}
+
+func (t *xapTransformer) Apply(dest, mimeType string, result io.Reader) error {
+	return signers.ApplyBinPatch(t.f, dest, result)
 }
 
 func sign(r io.Reader, cert *certloader.Certificate, opts signers.SignOpts) ([]byte, error) {
